@@ -1138,6 +1138,11 @@ class COO(SparseArray, NDArrayOperatorsMixin):  # lgtm [py/missing-equals]
         else:
             raise ValueError(f"Invalid axis parameter: `{axis}`.")
 
+        axis = tuple(d + self.ndim if -self.ndim <= d < 0 else d for d in axis)
+
+        if len(set(axis)) < len(axis):
+            raise ValueError(f"Repeated axis in `{axis}`.")
+
         for d in axis:
             if d not in squeezable_dims:
                 raise ValueError(f"Specified axis `{d}` has a size greater than one: {self.shape[d]}")
